@@ -41,6 +41,9 @@ def run(tier, seed):
     rep = Report(PID, tier, seed, "proof")
     po = proof_obligations("WowVerif.Thm.C09", ["wowdrv"])
     add_proof_failures(rep, po)
+    po2 = proof_obligations("WowVerif.Thm.C09b")      # bounds_lo_sound: the computed minimum bounds every encoding of every closed program
+    add_proof_failures(rep, po2)
+    po = dict(po, theorems=dict(po["theorems"], **po2["theorems"]), obligations=po["obligations"] + po2["obligations"], discharged=po["discharged"] + po2["discharged"])
     lim = read_limits()
     want = {"CSTRING_LARGEST_ALLOWED": 256, "SIZED_CSTRING_LARGEST_ALLOWED": 8004, "STRING_LARGEST_POSSIBLE": 256, "CMSG_CAP": 10240}
     m_e = re.search(r"ParsedArraySize::Endless\) \{\s*sizes\.inc\(0, (u16::MAX) as _\);", open(os.path.join(REPO, "wow_message_parser/src/parser/types/parsed/parsed_ty.rs")).read())
